@@ -1,9 +1,264 @@
 import KG.Base.Json
-/-! Driver entry points for property C11 (filled in by the C11 model). -/
-namespace KG.Driver.C11
-open Lean
+import KG.Driver.C01
+import KG.Spec.ClusterSync
+/-!
+Driver entry points for property C11 (hot reload converges to the latest object).
 
-/-- `handle method args`: `none` when the method is unknown. -/
-def handle (_m : String) (_a : Json) : Option (Except String Json) := none
+`C11.run {env, conn, history:[{obj, ord}], eps:[…], names:[…], probes:[attrs…]}` runs the ClusterSync model over a
+whole history and answers, per step: the outcome of `Sync`, the observation of the long-lived `ClusterInfo`
+(evaluated on the given universes of endpoints / schema names / request probes), the observation the judge
+`expected` prescribes for that object, and outcome + observation of a fresh `ClusterInfo` given only that object.
+-/
+namespace KG.Driver.C11
+open Lean KG KG.Model.ClusterSync KG.Spec.ClusterSync
+
+/-! ## executable instance of the external code -/
+
+def asciiLower (s : Str) : Str := s.map fun b => if 65 ≤ b ∧ b ≤ 90 then b + 32 else b
+
+def isSpace (b : UInt8) : Bool := b == 32 || (9 ≤ b && b ≤ 13)
+def trimSpace (s : Str) : Str := ((s.dropWhile isSpace).reverse.dropWhile isSpace).reverse
+
+def splitOn (sep : UInt8) : Str → List Str
+  | [] => [[]]
+  | b :: r =>
+    match splitOn sep r with
+    | [] => [[]]
+    | h :: t => if b == sep then [] :: h :: t else (b :: h) :: t
+
+/-- `strings.SplitN(s, "=", 2)` -/
+def splitEq : Str → Str × Option Str
+  | [] => ([], none)
+  | b :: r => if b == 61 then ([], some r) else
+    match splitEq r with
+    | (k, v) => (b :: k, v)
+
+/-- `strconv.ParseBool` -/
+def parseBool (s : Str) : Option Bool :=
+  if s ∈ ["1", "t", "T", "TRUE", "true", "True"].map Str.ofString then some true
+  else if s ∈ ["0", "f", "F", "FALSE", "false", "False"].map Str.ofString then some false
+  else none
+
+/-- every gate of a `DefaultMutableFeatureGate.DeepCopy()`: the project's gates (regenerated from features.go) and
+    the two generic switches of k8s.io/component-base/featuregate -/
+def knownGates : List (Str × Bool × String) :=
+  (KG.Gen.C11.knownGates.map fun (n, d, st) => (Str.ofString n, d, st)) ++
+    [(Str.ofString "AllAlpha", false, "Alpha"), (Str.ofString "AllBeta", false, "Beta")]
+
+def defaultGatesExec : Gates := knownGates.map fun (n, d, _) => (n, d)
+
+/-- the `key=value,…` parser of `featureGate.Set`; later duplicates override -/
+def parseGateMap : List Str → Option (List (Str × Bool))
+  | [] => some []
+  | seg :: r =>
+    if seg.length == 0 then parseGateMap r
+    else
+      match splitEq seg with
+      | (_, none) => none
+      | (k, some v) =>
+        match parseBool (trimSpace v) with
+        | none => none
+        | some b =>
+          match parseGateMap r with
+          | none => none
+          | some m => some (if (alookup (trimSpace k) m).isSome then m else (trimSpace k, b) :: m)
+
+/-- `DefaultMutableFeatureGate.DeepCopy().Set(v)` -/
+def setGatesExec (v : Str) : Option Gates :=
+  match parseGateMap (splitOn 44 v) with
+  | none => none
+  | some m =>
+    if m.any (fun kv => (alookup kv.1 (knownGates.map fun (n, d, _) => (n, d))).isNone) then none
+    else
+      some <| knownGates.map fun (n, d, st) =>
+        match alookup n m with
+        | some b => (n, b)
+        | none =>
+          match st, alookup (Str.ofString "AllAlpha") m, alookup (Str.ofString "AllBeta") m with
+          | "Alpha", some b, _ => (n, b)
+          | "Beta", _, some b => (n, b)
+          | _, _, _ => (n, d)
+
+def mkEnv (caOK : List Str) (pairOK : List (Str × Str)) (badEps : List Str) : Env :=
+  { lower := asciiLower,
+    setGates := setGatesExec,
+    defaultGates := defaultGatesExec,
+    parseCA := fun b => if b ∈ caOK then some b else none,
+    parsePair := fun c k => if (c, k) ∈ pairOK then some (c ++ [43] ++ k) else none,
+    addOK := fun e => !(e ∈ badEps) }
+
+/-! ## decoding -/
+
+def optBool (j : Json) (k : String) : Except String (Option Bool) :=
+  match J.optObj j k with
+  | none => pure none
+  | some v => do pure (some (← v.getBool?))
+
+def optInt (j : Json) (k : String) : Except String (Option Int) :=
+  match J.optObj j k with
+  | none => pure none
+  | some v => do pure (some (← v.getInt?))
+
+def optTB (j : Json) (k : String) : Except String (Option TB) :=
+  match J.optObj j k with
+  | none => pure none
+  | some v => do
+    match (← v.getArr?).toList with
+    | [q, b] => pure (some ⟨← q.getInt?, ← b.getInt?⟩)
+    | _ => throw "bad token bucket"
+
+def decodeServer (j : Json) : Except String Server := do
+  pure ⟨← J.getHex j "ep", ← optBool j "dis"⟩
+
+def decodeSS (j : Json) : Except String SecureServing := do
+  pure ⟨← J.getHex j "key", ← J.getHex j "cert", ← J.getHex j "ca", ← J.getHexList j "names"⟩
+
+def decodeSchema (j : Json) : Except String Schema := do
+  pure { name := ← J.getHex j "name", exempt := ← J.getBool j "exempt", maxInflight := ← optInt j "max",
+         tokenBucket := ← optTB j "tb", globalMaxInflight := ← optInt j "gmax", globalTokenBucket := ← optTB j "gtb",
+         strategy := ← J.getHex j "strategy" }
+
+def decodePolicy (j : Json) : Except String DPolicy := do
+  let rules ← (← J.getArr j "rules").toList.mapM KG.Driver.C01.decodeRule
+  pure { rules := rules, strategy := ← J.getHex j "strategy", upstreamSubset := ← J.getHexList j "subset",
+         flowControlSchemaName := ← J.getHex j "fc", logMode := ← J.getHex j "log" }
+
+def decodeAnn (j : Json) : Except String (Option (List (Str × Str))) :=
+  match J.optObj j "ann" with
+  | none => pure none
+  | some v => do
+    let l ← (← v.getArr?).toList.mapM fun kv => do
+      match (← kv.getArr?).toList with
+      | [k, x] => pure ((← J.asHex k), (← J.asHex x))
+      | _ => throw "bad annotation"
+    pure (some l)
+
+def decodeObj (j : Json) : Except String Obj := do
+  pure { name := ← J.getHex j "name", annotations := ← decodeAnn j,
+         servers := ← (← J.getArr j "servers").toList.mapM decodeServer,
+         secureServing := ← decodeSS (← J.getObj j "ss"),
+         schemas := ← (← J.getArr j "schemas").toList.mapM decodeSchema,
+         policies := ← (← J.getArr j "policies").toList.mapM decodePolicy,
+         logging := ← J.getHex j "logging" }
+
+def decodeEnv (j : Json) : Except String Env := do
+  let pairs ← (← J.getArr j "pairOK").toList.mapM fun p => do
+    match (← p.getArr?).toList with
+    | [c, k] => pure ((← J.asHex c), (← J.asHex k))
+    | _ => throw "bad pair"
+  pure (mkEnv (← J.getHexList j "caOK") pairs (← J.getHexList j "badEps"))
+
+def decodeConn (j : Json) : Except String Conn := do
+  pure ⟨← J.getHex j "global", ← J.getBool j "skip"⟩
+
+def decodeDelivery (j : Json) : Except String Delivery := do
+  let ord := match J.getHexList j "ord" with
+    | .ok l => l
+    | .error _ => []
+  pure ⟨← decodeObj (← J.getObj j "obj"), ord⟩
+
+/-! ## encoding -/
+
+def natStr (n : Nat) : Str := Str.ofString (toString n)
+
+/-- `String()` of a limiter -/
+def fcString (v : FCView) : Str :=
+  let ty := match v.typ with
+    | .exempt => "Exempt"
+    | .maxInflight => "MaxRequestsInflight"
+    | .tokenBucket => "TokenBucket"
+  let head := Str.ofString "name=" ++ v.name ++ Str.ofString ",type=" ++ Str.ofString ty
+  match v.typ with
+  | .tokenBucket => head ++ Str.ofString ",qps=" ++ natStr v.a ++ Str.ofString ",burst=" ++ natStr v.b
+  | _ => head ++ Str.ofString ",size=" ++ natStr v.a
+
+def optHex : Option Str → Json
+  | none => Json.null
+  | some s => J.hex s
+
+def encodePolicy (p : DPolicy) : Json :=
+  J.obj [("rules", Json.arr (p.rules.map KG.Driver.C01.encodeRule).toArray), ("strategy", J.hex p.strategy),
+         ("subset", J.hexList p.upstreamSubset), ("fc", J.hex p.flowControlSchemaName), ("log", J.hex p.logMode)]
+
+def encodePicker : Option Picker → Json
+  | none => Json.null
+  | some p => J.obj [("fcName", J.hex p.flowControlName), ("fc", optHex (p.flowControl.map fcString)),
+                     ("upstreams", J.hexList p.upstreams), ("log", J.bool p.enableLog)]
+
+structure Universe where
+  eps : List Str
+  names : List Str
+  probes : List KG.Model.Match.Attrs
+
+def encodeObs (u : Universe) (o : Obs) (probes : Option (List (Option Picker))) : Json :=
+  J.obj <| [
+    ("policies", Json.arr (o.policies.map encodePolicy).toArray),
+    ("logging", J.hex o.logging),
+    ("endpoints", Json.arr (u.eps.filterMap fun e => (o.endpoints e).map fun d => Json.arr #[J.hex e, J.bool d]).toArray),
+    ("schemas", Json.arr (u.names.map fun n => Json.arr #[J.hex n, optHex ((o.schemas n).map fcString)]).toArray),
+    ("has", Json.arr (u.names.map fun n => Json.arr #[J.hex n, J.bool (o.hasSchema n)]).toArray),
+    ("mode", J.hex o.limiterMode),
+    ("gates", Json.arr (o.gates.map fun (g, b) => Json.arr #[J.hex g, J.bool b]).toArray),
+    ("tls", match o.tls with
+            | none => Json.null
+            | some (ca, cert) => Json.arr #[optHex ca, optHex cert]),
+    ("verify", optHex o.verify),
+    ("serverNames", J.hexList o.serverNames)] ++
+    (match probes with
+     | none => []
+     | some ps => [("probes", Json.arr (ps.map encodePicker).toArray)])
+
+def encodeCI (env : Env) (u : Universe) (c : CI) : Json :=
+  encodeObs u (observe env c) (some (u.probes.map (matchAttributes c)))
+
+def errName : Err → String
+  | .featureGate => "featureGate"
+  | .clientCA => "clientCA"
+  | .keyPair => "keyPair"
+  | .endpoint _ => "endpoint"
+
+def encodeOutcome (env : Env) (u : Universe) : Outcome → Json
+  | .ok c => J.obj [("outcome", Json.str "ok"), ("obs", encodeCI env u c)]
+  | .fail e c => J.obj [("outcome", Json.str ("fail:" ++ errName e)), ("obs", encodeCI env u c)]
+  | .crash => J.obj [("outcome", Json.str "crash")]
+
+/-- run the history; one record per delivery -/
+def runSteps (env : Env) (conn : Conn) (u : Universe) : Option CI → List Delivery → List Json
+  | _, [] => []
+  | none, _ :: r => J.obj [("outcome", Json.str "dead")] :: runSteps env conn u none r
+  | some c, d :: r =>
+    let out := sync env c d.obj d.ord
+    let next := match out with
+      | .ok c' => some c'
+      | .fail _ c' => some c'
+      | .crash => none
+    let rec_ := J.obj [
+      ("step", encodeOutcome env u out),
+      ("expected", encodeObs u (expected env conn d.obj) none),
+      ("fresh", encodeOutcome env u (fresh env conn d.obj d.ord))]
+    rec_ :: runSteps env conn u next r
+
+def doRun (a : Json) : Except String Json := do
+  let env ← decodeEnv (← J.getObj a "env")
+  let conn ← decodeConn (← J.getObj a "conn")
+  let hist ← (← J.getArr a "history").toList.mapM decodeDelivery
+  let u : Universe := ⟨← J.getHexList a "eps", ← J.getHexList a "names",
+    ← (← J.getArr a "probes").toList.mapM KG.Driver.C01.decodeAttrs⟩
+  match hist with
+  | [] => pure (Json.arr #[])
+  | d :: _ => pure (Json.arr (runSteps env conn u (some (empty env conn d.obj.name)) hist).toArray)
+
+/-- `C11.gates {v}`: the executable `featuregate.Set` alone (tied to the real one by the harness) -/
+def doGates (a : Json) : Except String Json := do
+  let v ← J.getHex a "v"
+  match setGatesExec v with
+  | none => pure Json.null
+  | some g => pure (Json.arr (g.map fun (n, b) => Json.arr #[J.hex n, J.bool b]).toArray)
+
+def handle (m : String) (a : Json) : Option (Except String Json) :=
+  match m with
+  | "run" => some (doRun a)
+  | "gates" => some (doGates a)
+  | _ => none
 
 end KG.Driver.C11
